@@ -13,7 +13,8 @@ LEVEL = "exploration"
 RULE = ("random RDF 1.1 graphs and datasets (default graph, IRI and blank-node graph names; plain, language-tagged, xsd:string "
         "and typed literals) are written with Graph.serialize(format='jelly', options=/stream=), flat_stream_to_file, "
         "grouped_stream_to_file and stream_frames over Triple/Quad/GraphStream, flat and grouped logical types, presets >= "
-        "need, frame sizes, delimited and (flat) non-delimited; read back with Graph.parse / Dataset.parse(format='jelly'), "
+        "need (and, in ~15% of the cases, prefix/datatype tables of 1-3 entries that a statement may overflow: a refusal "
+        "with JellyConformanceError is then accepted, written bytes must still round-trip), frame sizes, delimited and (flat) non-delimited; read back with Graph.parse / Dataset.parse(format='jelly'), "
         "parse_jelly_flat, parse_jelly_grouped (union) and parse_jelly_to_graph. Oracle: field-by-field equality (never "
         "rdflib ==) of the SETS of triples / quads incl. graph names. A second pass runs with rdflib.NORMALIZE_LITERALS = "
         "False. Non-trivial: dataset with >= 2 graphs or a blank-node graph name, or a stream with >= 1 eviction; distinct by "
@@ -57,7 +58,19 @@ def make_case(rng, max_len=40):
         cfg["entry"] = "graph_serialize_options"
     elif cfg["entry"] == "graph_serialize" and rng.random() < .3:
         cfg["entry"] = "graph_serialize_path"       # destination given as a file name
+    if rng.random() < .15:
+        # 'all lookup presets': prefix / datatype tables smaller than what one statement may need.  The serializer
+        # may refuse such a statement (C18); whatever it does write must still read back as the input.
+        n, p, d = cfg["preset"]
+        cfg["preset"] = (n, rng.choice([1, 2, 3]) if p else 0, rng.choice([1, 2, d]) if d else 0)
     return cfg, stmts
+
+
+def undersized(cfg: dict, stmts: list) -> bool:
+    """Does some statement need more entries of a table than the preset gives it?"""
+    n, p, d = cfg["preset"]
+    np_, nn, nd = gen.need_of(stmts, cfg["physical"], p > 0)
+    return np_ > p > 0 or nn > n or (nd > d > 0)
 
 
 def read_back(data: bytes, physical: int, reader: str) -> list:
@@ -94,6 +107,8 @@ def roundtrip(cfg: dict, stmts: list, normalize: bool = True):
         try:
             data = pj.serialize(cfg, stmts)
         except Exception as e:  # noqa: BLE001
+            if type(e).__name__ == "JellyConformanceError" and undersized(cfg, stmts):
+                return {"clause": "refused-undersized", "summary": "refused"}, None     # not a violation (see run_shard)
             return {"clause": "serializer-raised", "summary": f"{type(e).__name__}: {e}"}, None
         want = {T.norm_stmt(s) for s in stmts}
         for reader in ("graph.parse", "graph.parse-path", "flat", "grouped", "to_graph"):
@@ -126,6 +141,12 @@ def run_shard(ctx):
         ctx.observe("normalize-literals-on" if normalize else "normalize-literals-off")
         for r in ("graph.parse", "graph.parse-path", "flat", "grouped", "to_graph"):
             ctx.observe(f"reader:{r}")
+        if undersized(cfg, stmts):
+            ctx.observe("undersized-table-cases")
+        if w is not None and w["clause"] == "refused-undersized":
+            ctx.observe("undersized-table-cases-refused")
+            ctx.case((cfg, stmts), False)
+            continue
         if w is not None:
             small = workloads.shrink_list(stmts, lambda s: (roundtrip(cfg, s, normalize)[0] or {}).get("clause") == w["clause"], 80)
             w2 = roundtrip(cfg, small, normalize)[0] or w
@@ -152,7 +173,8 @@ def run_shard(ctx):
 def replay(w: dict):
     cfg = w["cfg"]
     cfg["preset"] = tuple(cfg["preset"])
-    return roundtrip(cfg, list(T.from_json(w["stmts"])), w.get("normalize", True))[0]
+    r = roundtrip(cfg, list(T.from_json(w["stmts"])), w.get("normalize", True))[0]
+    return None if r and r["clause"] == "refused-undersized" else r
 
 
 def classify(w: dict):
